@@ -199,6 +199,14 @@ theorem first_start_crash_harmless (p : Params) (g : Block) (hg : g.header.heigh
     reopen p g (firstCrashD p g k) = initLedger p g :=
   reopen_firstCrash p g k hg
 
+/-- **Any unfinished first start restarts clean** — also after several interrupted attempts: a directory without
+version key whose state store passes the `NewStateStore` checks and whose hash file holds at most the genesis append,
+whatever subset of the three stores an interrupted attempt (or an interrupted `ClearAll` of a later attempt) left
+behind, starts exactly like an empty directory. -/
+theorem unfinished_first_start_restarts_clean (p : Params) (g : Block) (d : Durable) (hv : d.blocks.version = false)
+    (ho : ∃ r, openState d = .ok r) (hf : d.fileLen ≤ appendCount 0) : reopen p g d = initLedger p g :=
+  reopen_unfinished_first_start p g d hv ho hf
+
 /-- The event store is idempotent to re-saving a block's batch (the reason the event commit precedes the state
 commit in `submitBlock`). -/
 theorem event_resave_idempotent (db : EventDB) (ws : List EWrite) : (db.commit ws).commit ws = db.commit ws :=
